@@ -1,5 +1,6 @@
 use crate::report::{CheckOutput, Ctx};
 
+pub mod c01;
 pub mod c02;
 pub mod c09;
 pub mod c12;
@@ -7,6 +8,7 @@ pub mod common;
 
 pub fn run(ctx: &Ctx) -> Option<CheckOutput> {
 	Some(match ctx.id.as_str() {
+		"C01" => c01::run(ctx),
 		"C02" => c02::run(ctx),
 		"C09" => c09::run(ctx),
 		"C12" => c12::run(ctx),
@@ -28,6 +30,7 @@ pub fn replay_file(path: &str) -> i32 {
 	let case = &v["case"];
 	let run_once = || -> Option<String> {
 		match prop.as_str() {
+			"C01" => c01::replay(case),
 			"C02" => c02::replay(case),
 			"C09" => c09::replay(case),
 			"C12" => c12::replay(case),
